@@ -21,5 +21,13 @@ for id in "$@"; do
   echo "== $id exit=$rc"; grep -c "^VIOLATION" $VERIF_OUT/$id.log; grep -A1 "^VIOLATION" $VERIF_OUT/$id.log | cut -c1-400 | head -8; tail -1 $VERIF_OUT/$id.log
 done
 # facts files regenerated from the changed tree must not stay behind
-for f in ParamsFacts AbiFacts; do cp coq/gen/$f.baseline coq/gen/$f.v; done
+# (under the same machine-wide lock the checks hold while they write the facts and re-check the proofs: a restore in the middle of another
+#  run's proof step would make that run check the baseline facts instead of its own)
+python3 - <<'PY'
+import sys, shutil; sys.path.insert(0, 'tools')
+import vlib
+with vlib.GlobalLock('facts'):
+    with vlib.Lock('coq'):
+        for f in ('ParamsFacts', 'AbiFacts'): shutil.copyfile('coq/gen/%s.baseline' % f, 'coq/gen/%s.v' % f)
+PY
 rm -rf $VERIF_OUT
